@@ -55,6 +55,20 @@ ASSUMPTIONS = [
     "exercised at 2^16",
     "certificates are the real X.509 files of /repo/tests; the ASN.1 layer "
     "is only reached through the Certificate messages",
+    "no independent wire-format reference: a deviation from the RFC layout "
+    "made symmetrically in write() and parse() is invisible here (interop "
+    "with OpenSSL is C07's subject)",
+    "legitimately non-canonical accepted forms are compared through an "
+    "explicit normal form (listed in the evidence notes): SSLv2 ClientHello "
+    "challenge left-padding, SSLv2 3-byte record header with zero padding, "
+    "NextProtocol padding, leading zero bytes of DH/SRP public values in "
+    "ClientKeyExchange, the compressor's choice in CompressedCertificate "
+    "(there the harness checks independently that the compressed field is "
+    "exactly one zlib stream); extensions absent vs empty block round-trip "
+    "exactly (None vs []) and need no normal form",
+    "a message-level anomaly that is reproduced by one embedded extension "
+    "parsed stand-alone in the same dispatch context is keyed by that "
+    "extension class (witness field embedded_in names the message)",
 ]
 NONTRIVIAL = ["rt", "pcell", "ovf"]
 DEADLINE = {"quick": 100, "thorough": 1200}
@@ -1621,7 +1635,7 @@ def run_case(ctx, it, seed):
 
 
 def make_cases(ctx):
-    seeds = ctx.pick(7, 120)
+    seeds = ctx.pick(9, 260)
     for s in range(seeds):
         for it in ITEMS:
             n = s
@@ -1636,8 +1650,40 @@ def run(ctx):
         run_case(ctx, ITEM_BY_NAME[name], seed)
 
 
-def finalize(m, tier):
+def uncovered():
+    """classes of tlslite.messages / dispatch-table entries of
+    tlslite.extensions that no codec item exercises (vacuity guard against
+    classes added later)"""
+    import inspect
     out = []
+    have = set()
+    for it in ITEMS:
+        if it.kind != "ext":
+            have.add(type(it.new()))
+    bases = {M.RecordHeader, M.Message, M.HandshakeMsg, M.HelloMessage,
+             M.SSL2Finished,
+             M.CertificateEntry}     # exercised inside Certificate/3.4
+    for name, cls in inspect.getmembers(M, inspect.isclass):
+        if cls.__module__ != M.__name__ or cls in bases:
+            continue
+        if hasattr(cls, "parse") and hasattr(cls, "write") and \
+                cls not in have:
+            out.append("tlslite.messages.%s has no codec item" % name)
+    tables = {"CH": E.TLSExtension._universalExtensions,
+              "SH": E.TLSExtension._serverExtensions,
+              "CERT": E.TLSExtension._certificateExtensions,
+              "HRR": E.TLSExtension._hrrExtensions}
+    for cname, tab in tables.items():
+        for t, cls in tab.items():
+            if not any(e[1] is cls and cname in e[2] for e in EXTS):
+                out.append("extension class %s (type %d) is dispatched in "
+                           "%s but has no codec item there" % (
+                               cls.__name__, t, cname))
+    return out
+
+
+def finalize(m, tier):
+    out = uncovered()
     c = m["counters"]
     have = m["cells"].get("item", set())
     for it in ITEMS:
@@ -1653,6 +1699,9 @@ def finalize(m, tier):
             if k == "trailing_inside" and it.name in (
                     "HelloRequest", "ServerHelloDone", "ChangeCipherSpec"):
                 continue
+            if k in ("byte_00", "byte_minus1") and it.name in (
+                    "HelloRequest", "ServerHelloDone"):
+                continue      # the encoding is 00 00 00 after the type byte
             if not any(x.startswith("%s/%s/" % (it.name, k)) or
                        (k == "trailing_inside" and x.startswith(
                            "%s/trailing_inside_outer/" % it.name))
